@@ -3,6 +3,8 @@ package main
 // Recursive spec functions: uninterpreted symbols with definitional unfolding.
 
 import (
+	"strings"
+	"go/token"
 	"fmt"
 	"go/types"
 	"sort"
@@ -254,4 +256,90 @@ func mentions(t *Term, bound map[string]bool) bool {
 		}
 	})
 	return found
+}
+
+// contentCongruence: recursive spec functions are pure Go functions of the *contents* of their
+// byte-string arguments (they never look at capacity or identity). For two applications in the
+// query (original terms only, not the unfolded definitions) whose byte arguments are different
+// arrays, add the instance "equal contents and equal other arguments give equal results". This is
+// a meta-property of the spec functions (stated in DESIGN.md 8.7), not something the solver proves.
+func (e *Engine) contentCongruence(ts []*Term) []*Term {
+	byName := map[string][]*Term{}
+	seen := map[*Term]bool{}
+	var names []string
+	for _, t := range ts {
+		Walk(t, seen, func(x *Term) {
+			if x.Op != "app" {
+				return
+			}
+			if u := e.ufSpecs[fmt.Sprintf("%s#%d", x.Name, e.ar.Mode)]; u != nil && groundTerm(x) {
+				if len(byName[x.Name]) == 0 {
+					names = append(names, x.Name)
+				}
+				for _, y := range byName[x.Name] {
+					if sameTerm(x, y) {
+						return
+					}
+				}
+				byName[x.Name] = append(byName[x.Name], x)
+			}
+		})
+	}
+	sort.Strings(names)
+	var out []*Term
+	I := e.ar.I()
+	for _, n := range names {
+		apps := byName[n]
+		u := e.ufSpecs[fmt.Sprintf("%s#%d", n, e.ar.Mode)]
+		sig := u.fn.Signature
+		pairs := 0
+		for i := 0; i < len(apps) && pairs < 12; i++ {
+			for j := i + 1; j < len(apps) && pairs < 12; j++ {
+				a, b := apps[i], apps[j]
+				var conds []*Term
+				k := 0
+				differ := false
+				for pi := 0; pi < sig.Params().Len(); pi++ {
+					pt := sig.Params().At(pi).Type()
+					if isByteSlice(pt) || isString(pt) {
+						arrA, offA, lenA := a.Args[k], a.Args[k+1], a.Args[k+2]
+						arrB, offB, lenB := b.Args[k], b.Args[k+1], b.Args[k+2]
+						k += 3
+						conds = append(conds, Eq(lenA, lenB))
+						if sameTerm(arrA, arrB) && sameTerm(offA, offB) {
+							continue
+						}
+						differ = true
+						// (forall i. P(i)) => Q is exists i. (P(i) => Q): the witness is a Skolem constant
+						e.nfresh++
+						iv := Var(fmt.Sprintf("cgw!%d", e.nfresh), I)
+						inR := And(e.ar.Cmp(token.LEQ, tInt, e.ar.IConst(0), iv), e.ar.Cmp(token.LSS, tInt, iv, lenA))
+						conds = append(conds, Implies(inR, Eq(Select(arrA, e.ar.Bin(token.ADD, tInt, offA, iv)), Select(arrB, e.ar.Bin(token.ADD, tInt, offB, iv)))))
+					} else {
+						conds = append(conds, Eq(a.Args[k], b.Args[k]))
+						k++
+					}
+				}
+				if !differ {
+					continue
+				}
+				pairs++
+				out = append(out, Implies(And(conds...), Eq(a, b)))
+			}
+		}
+	}
+	if len(out) > 0 {
+		e.assumptions["spec functions are functions of the contents of their byte-string arguments (content congruence instances are added between applications on different arrays)"] = true
+	}
+	return out
+}
+
+func groundTerm(t *Term) bool {
+	g := true
+	Walk(t, map[*Term]bool{}, func(x *Term) {
+		if x.Op == "var" && strings.HasPrefix(x.Name, "$b_") {
+			g = false
+		}
+	})
+	return g
 }
